@@ -58,6 +58,7 @@ type Gen struct {
 	inlined  []string
 	knownFns map[string]bool // function keys recorded in locks/functions.json (root Gen only)
 	loopVariants map[string]string // loops with a recorded termination argument (nil: not demanded)
+	privCells map[*ssa.Alloc][]*ssa.MakeClosure
 	outer    *Env            // inlined callee: the caller's variables at the call
 	outerAlias map[string]string
 	aliasOf map[string]string                       // renamed variables of fn: recorded name -> current name
